@@ -167,6 +167,7 @@ func genParse(c *ctx) string {
 	fmt.Fprintf(&b, "def opErrPosAfterLookahead : Bool := %s\n", opErrPosAfterLookahead(c))
 	fmt.Fprintf(&b, "def fragCondPosAfterToken : Bool := %s\n", fragCondPosAfterToken(c))
 	fmt.Fprintf(&b, "def varDefPosAfterToken : Bool := %s\n", varDefPosAfterToken(c))
+	fmt.Fprintf(&b, "def argPosAfterToken : Bool := %s\n", argPosAfterToken(c))
 	fmt.Fprintf(&b, "def maxParseDepth : Option Nat := %s\n", maxParseDepth(c))
 	type ent struct{ name, h string }
 	var ents []ent
@@ -256,4 +257,23 @@ func maxParseDepth(c *ctx) string {
 		return unknown("deeper() call sites", c.pos(rv))
 	}
 	return "(some " + limit + ")"
+}
+
+// argPosAfterToken reads (*parser).readArgValue: is the location of an argument computed from the scanner's
+// position after the name (and its one-byte look-ahead) has been read (D82: when the name ends its line the
+// location is on the next line with a negative column), or sampled before the name is read?
+func argPosAfterToken(c *ctx) string {
+	fd := c.funcs["parser.readArgValue"]
+	if fd == nil {
+		return unknown("readArgValue", "parser.go")
+	}
+	t := regexp.MustCompile(`(?m)//.*$`).ReplaceAllString(c.src(fd.Body), "")
+	src := regexp.MustCompile(`\s+`).ReplaceAllString(t, " ")
+	switch {
+	case strings.HasPrefix(src, "{ av = &ArgValue{} if av.Arg, err = p.readToken(); err != nil { return } av.line = p.line av.col = p.col - len(av.Arg) - 1 if len(av.Arg) == 0 {"):
+		return "true"
+	case strings.HasPrefix(src, "{ av = &ArgValue{} line, col := p.line, p.col-1 if av.Arg, err = p.readToken(); err != nil { return } av.line = line av.col = col if len(av.Arg) == 0 {"):
+		return "false"
+	}
+	return unknown("readArgValue position", c.pos(fd))
 }
